@@ -207,6 +207,12 @@ func (x *Exec) callSite(fr *Frame, st *State, what string, callee *ssa.Function,
 		return nil
 	}
 	x.callSeen[tag] = true
+	if x.atTagUsed(top, tag) {
+		// at(Name#k, e): e in the state just before this call
+		snap := st.Clone()
+		snap.Snap = map[string]*State{}
+		st.Snap[tag] = snap
+	}
 	cl := top.CallAssert[tag]
 	if len(cl) == 0 && len(top.CallWitness[tag]) == 0 {
 		return nil
@@ -245,6 +251,40 @@ func (x *Exec) callSite(fr *Frame, st *State, what string, callee *ssa.Function,
 		x.u.AddObligation(x.topName, fmt.Sprintf("assert@%s.c%d", tag, ci+1), pos, x.lab(c.Labels), c.Text, st.PC, g)
 	}
 	return nil
+}
+
+// atTagUsed: does any clause of the contract mention at(<tag>, ...)?
+func (x *Exec) atTagUsed(fc *FuncContract, tag string) bool {
+	if x.atTags == nil {
+		x.atTags = map[string]bool{}
+		scan := func(cs []*Clause) {
+			for _, c := range cs {
+				t := c.Text
+				for {
+					i := strings.Index(t, "at(")
+					if i < 0 {
+						break
+					}
+					t = t[i+3:]
+					if j := strings.Index(t, ","); j > 0 {
+						x.atTags[strings.TrimSpace(t[:j])] = true
+					}
+				}
+			}
+		}
+		scan(fc.Requires)
+		scan(fc.Ensures)
+		for _, l := range fc.Loops {
+			scan(l)
+		}
+		for _, l := range fc.CallAssert {
+			scan(l)
+		}
+		for _, l := range fc.CallInv {
+			scan(l)
+		}
+	}
+	return x.atTags[tag]
 }
 
 // opaqueCall: nothing is known about the callee: it may change the whole heap.
